@@ -23,23 +23,37 @@ namespace
 {
 
 // ---------------- independent reference: plain sieve of Eratosthenes -------
-const unsigned REF_MAX = 14000000; // thorough limits go to 3e6; iterators
+const unsigned REF_MAX = 40000000; // thorough limits go to 3e6; iterators
                                    // extend to 2x their last prime
 std::vector<unsigned> REF; // all primes <= REF_MAX
 std::vector<unsigned> PI_AT; // unused (computed on demand by upper_bound)
 
-void build_ref()
+// (not instrumented: 40 million byte stores under ASan cost seconds per process)
+__attribute__((no_sanitize("address", "undefined"))) void build_ref()
 {
     if (!REF.empty())
         return;
-    std::vector<bool> comp(REF_MAX + 1, false);
-    for (unsigned i = 2; (uint64_t)i * i <= REF_MAX; i++)
-        if (!comp[i])
-            for (unsigned j = i * i; j <= REF_MAX; j += i)
-                comp[j] = true;
-    for (unsigned i = 2; i <= REF_MAX; i++)
-        if (!comp[i])
-            REF.push_back(i);
+    // odd numbers only: comp[k] stands for 2k+1 (independent of the library:
+    // a plain sieve of Eratosthenes, one byte per odd number)
+    const unsigned half = REF_MAX / 2 + 1;
+    unsigned char *comp = (unsigned char *)calloc(half, 1);
+    unsigned *out = (unsigned *)malloc(2600000 * sizeof(unsigned));
+    size_t cnt = 0;
+    out[cnt++] = 2;
+    for (unsigned k = 1; k < half; k++) {
+        if (comp[k])
+            continue;
+        uint64_t n = 2 * (uint64_t)k + 1;
+        if (n > REF_MAX)
+            break;
+        out[cnt++] = (unsigned)n;
+        if (n * n <= REF_MAX)
+            for (uint64_t m = n * n / 2; m < half; m += n)
+                comp[m] = 1;
+    }
+    REF.assign(out, out + cnt);
+    free(out);
+    free(comp);
 }
 size_t ref_count_upto(unsigned limit)
 {
@@ -179,13 +193,38 @@ Json gen(uint64_t seed, const std::string &tier)
                 o["n"] = n;
                 if (g.below(8) < fail_share)
                     o["alloc_fail"] = (unsigned)(1 + g.below(4));
+                if (g.chance(1, 1000)) {
+                    // one very long walk on an unbounded iterator: more than
+                    // 2^20 primes from a single iterator object
+                    Json mk = Json::object();
+                    mk["op"] = "it_new";
+                    mk["it"] = o["it"];
+                    mk["limit"] = 0u;
+                    ops.push(mk);
+                    o["n"] = 1049000u + (unsigned)g.below(3000);
+                    o["alloc_fail"] = 0u;
+                }
                 break;
             }
             case 3:
+                if (g.chance(1, 3)) {
+                    // iterators are values: copy-assign one slot from another
+                    // (or from a temporary: the "start again" idiom)
+                    o["op"] = "it_assign";
+                    o["it"] = (unsigned)g.below(nslots);
+                    o["from"] = (unsigned)g.below(nslots);
+                    o["fresh"] = g.chance(1, 3);
+                    o["limit"] = g.chance(1, 3) ? 0u : pick_limit(g, maxlim, sizes);
+                    break;
+                }
                 o["op"] = "it_del";
                 o["it"] = (unsigned)g.below(nslots);
+                if (g.below(8) < fail_share)
+                    o["alloc_fail"] = (unsigned)(1 + g.below(2));
                 break;
             case 4:
+                if (g.below(8) < fail_share)
+                    o["alloc_fail"] = (unsigned)(1 + g.below(2));
                 o["op"] = "clear";
                 break;
             case 5:
@@ -442,17 +481,52 @@ void exec(Run &run)
             run.ev("it_next " + std::to_string(slot) + " x"
                    + std::to_string(taken) + " last=" + std::to_string(last)
                    + " h=" + std::to_string(h));
+        } else if (op == "it_assign") {
+            unsigned slot = (unsigned)(o.geti("it") % nslots);
+            unsigned from = (unsigned)(o.geti("from") % nslots);
+            ItModel &s = w.slots[slot];
+            if (!s.it) {
+                run.ev("it_assign (no target)");
+                continue;
+            }
+            if (o.at("fresh").as_bool() || !w.slots[from].it) {
+                unsigned limit = (unsigned)o.geti("limit");
+                if (limit > REF_MAX / 2)
+                    limit = REF_MAX / 2;
+                // assignment from a temporary, which is destroyed right away
+                *s.it = limit ? Sieve::iterator(limit) : Sieve::iterator();
+                s.index = 0;
+                s.limit = limit;
+                if (w.clear_flag)
+                    on_cache_cleared(w);
+                run.ev("it_assign " + std::to_string(slot) + " = fresh(limit=" + std::to_string(limit) + ")");
+            } else {
+                *s.it = *w.slots[from].it;
+                s.index = w.slots[from].index;
+                s.limit = w.slots[from].limit;
+                run.ev("it_assign " + std::to_string(slot) + " = " + std::to_string(from));
+            }
+            s.stale = false;
+            run.probe("iterator_copy_assigned");
         } else if (op == "it_del") {
             unsigned slot = (unsigned)(o.geti("it") % nslots);
             ItModel &s = w.slots[slot];
             if (s.it) {
+                simalloc::fail_after((uint64_t)o.geti("alloc_fail"));
                 s.it.reset();
+                simalloc::fail_after(0);
                 if (w.clear_flag)
                     on_cache_cleared(w);
                 run.ev("it_del " + std::to_string(slot));
             }
         } else if (op == "clear") {
-            Sieve::clear();
+            simalloc::fail_after((uint64_t)o.geti("alloc_fail"));
+            try {
+                Sieve::clear();
+            } catch (const std::bad_alloc &) {
+                run.fault("allocation_failed_inside_clear");
+            }
+            simalloc::fail_after(0);
             on_cache_cleared(w);
             run.ev("clear");
         } else if (op == "set_clear") {
